@@ -24,7 +24,7 @@ SWEEPS = [
     ("C08", "c08", ["FASTOR_USE_HADD", "FASTOR_ZERO_INITIALISE"],
      lambda c: c.get("op") in ("sum", "dot", "product", "norm", "ctor0", "ctor_b", "ctor_ld", "set1", "setn", "setseq", "copy"), 0.5, 1.0),
     ("C01", "c01", ["FASTOR_USE_HADD"] + BLK, None, 0.04, 0.3),
-    ("C17", "c17", BLK[:4], None, 0, 0.1),
+    ("C17", "c17", BLK, None, 0.03, 0.1),
     ("C14", "c14", ["FASTOR_TRANS_OUTER_BLOCK_SIZE=2", "FASTOR_TRANS_INNER_BLOCK_SIZE=4"], None, 0.12, 0.6),
     ("C03", "c03", ["FASTOR_USE_HADD", "FASTOR_DONT_PERFORM_OP_MIN", "FASTOR_KEEP_DP_FIXED"], None, 0.1, 0.5),
     ("C10", "c10", ["FASTOR_USE_HADD"], None, 0.04, 0.25),
@@ -32,9 +32,27 @@ SWEEPS = [
     ("C04", "c04", ["FASTOR_USE_VECTORISED_EXPR_ASSIGN"], None, 0.08, 0.5),
     ("C19", "c19", ["FASTOR_USE_VECTORISED_EXPR_ASSIGN"], None, 0.08, 0.5),
     ("C20", "c20", ["FASTOR_ZERO_INITIALISE", "FASTOR_DISABLE_SPECIALISED_CTR"], None, 0.1, 0.5),
-    ("C02", "c02", ["FASTOR_DISPATCH_DIV_TO_MUL_EXPR"], lambda c: '"div"' in json.dumps(c) or c.get("aop") == "div", 0.5, 1.0),
+    ("C02", "c02", ["FASTOR_DISPATCH_DIV_TO_MUL_EXPR"], lambda c: ('"div"' in json.dumps(c) or c.get("aop") == "div") and div_exact_under_mul(c), 0.5, 1.0),
 ]
 SWEEP_BASE = "avx2-14-O2"
+
+
+def div_exact_under_mul(c):
+    """FASTOR_DISPATCH_DIV_TO_MUL_EXPR turns expression/number into expression*(1/number): for a floating element type and a divisor that
+    is not a power of two this differs from the division by a rounding error (which the property allows), so such cases are outside the
+    exactness domain of the judge under that macro.  Integer types, tensor divisors and number/expression keep the division."""
+    if c.get("T") not in ("f32", "f64"):
+        return True
+    if c.get("aop") == "div" and c.get("tree", {}).get("k") in ("s", "k"):
+        return False
+
+    def bad(e):
+        if not isinstance(e, dict):
+            return False
+        if e.get("k") == "div" and isinstance(e.get("r"), dict) and e["r"].get("k") in ("s", "k"):
+            return True
+        return any(bad(v) for v in e.values())
+    return not bad(c.get("tree", {})) and c.get("op") != "div"
 
 
 def sweep_cfgs(macs, tier):
